@@ -112,8 +112,8 @@ func containerLayout(x gen.Chooser) gen.Layout {
 func c06Harness(x *mc.Exec) {
 	pristine()
 	bo := x.All("byte-order", 2)
-	ci := 1 + x.All("container", len(containers)-1)
-	c := containers[ci]
+	ci := 1 + x.All("container", len(c07Containers)-1)
+	c := c07Containers[ci]
 	rec := gen.ChooseRecord(x, true)
 	shape := gen.ChooseShape(x, rec)
 	x.Note("shape", shape)
@@ -170,7 +170,7 @@ func c06Harness(x *mc.Exec) {
 		if diff := obs.Diff(got, want, ign); len(diff) > 0 {
 			failMismatch(x, where+" vs Decode(TIFF)", got, want, diff, doc.B, map[string]string{"record": rec.Describe(), "byte_order": boName[bo], "layout": fmt.Sprintf("%+v", lay)})
 		}
-		if got["ImageType"] != c.imageType {
+		if c.name != "leading bytes + TIFF" && got["ImageType"] != c.imageType {
 			x.Fail(fmt.Sprintf("mismatch|%s|%s|[ImageType]", where, x.DevLabels()), fmt.Sprintf("%s reports image type %s, want %s", where, got["ImageType"], c.imageType), map[string]string{"input_hex": hexInput(doc.B)})
 		}
 		x.Outcome = c.name + fmt.Sprintf(":%x", hashBytes([]byte(got.String()))&0xffff)
@@ -196,8 +196,9 @@ func c06Harness(x *mc.Exec) {
 	}
 }
 
-// c07Containers adds, for the byte-order relation only, a TIFF block behind 0..69 leading
-// bytes read through exif2.Parse (the header search runs over the leading bytes).
+// c07Containers adds a TIFF block behind 0..69 leading bytes read through exif2.Parse (the header
+// search runs over the leading bytes); used for the byte-order relation and, in C06, compared with
+// the bare block (its image type is not judged: leading bytes are not a container format).
 var c07Containers = append(append([]containerKind{}, containers...), containerKind{
 	name: "leading bytes + TIFF", imageType: "image/tiff", nSurround: 70,
 	entries: []entryPoint{{"exif2.Parse", exif2Parse}},
@@ -224,6 +225,7 @@ func c07Harness(x *mc.Exec) {
 		lay.Trailing = 64
 	}
 	s := x.Choose("surroundings", c.nSurround)
+	chunk := []int{0, 1, 7, 3}[x.Choose("reader-chunk", 4)] // how the bytes arrive must not matter to either byte order
 	var docs [2]*gen.Doc
 	for b := 0; b < 2; b++ {
 		docs[b] = c.build(rec, lay, byteOrders[b], s)
@@ -235,7 +237,7 @@ func c07Harness(x *mc.Exec) {
 		var res [2]decodeResult
 		for b := 0; b < 2; b++ {
 			pristine()
-			res[b] = runDecode(ep.f, docs[b].B)
+			res[b] = runDecodeChunked(ep.f, docs[b].B, chunk)
 		}
 		where := fmt.Sprintf("%s(%s) II vs MM", ep.name, c.name)
 		if res[0].Panic != nil || res[1].Panic != nil {
